@@ -94,6 +94,10 @@ def run(ctx):
         r0 = x.nodes.radius.values.astype(float).copy() if kind == 'skeleton' else None
         phys0 = None
         op = dict(mul=lambda a, b: a * b, div=lambda a, b: a / b, add=lambda a, b: a + b, sub=lambda a, b: a - b)[opname]
+        gw0 = None
+        if kind == 'skeleton':       # graphs built BEFORE the operation: lengths measured on the result must be the result's own
+            gw0 = float(sum(d_['weight'] for _, _, d_ in x.graph.edges(data=True)))
+            _ = x.igraph
         st, y = guarded(op, x, arg)
         desc = dict(kind=kind, units=uspell, op=opname, arg=np.asarray(arg).tolist(), per_axis=per_axis)
         ctx.case((kind, uspell, opname, str(desc['arg']), str(c0[:2].tolist())), nontrivial=per_axis or uspell not in ('none', 'nm'),
@@ -144,8 +148,14 @@ def run(ctx):
                     max(abs(a - b) for a, b in zip(unit_nm(z)[1], u0[1])) > 1e-9 * max(u0[1]):
                 ctx.violation('x %s k %s k does not restore x' % (('*', '/') if opname == 'mul' else ('+', '-')), desc)
         # physical cable length / bounding box unchanged by scaling
-        if kind == 'skeleton' and opname in ('mul', 'div') and not per_axis and uspell not in ('peraxis',):
-            a = float(getattr(x.cable_length, 'magnitude', x.cable_length)) if False else None
+        if kind == 'skeleton' and opname in ('mul', 'div') and not per_axis and u0[1] and u1[1]:
+            cab0_, cab1_ = float(navis.morpho.cable_length(x)) * u0[1][0], float(navis.morpho.cable_length(y)) * u1[1][0]
+            gw1 = float(sum(d_['weight'] for _, _, d_ in y.graph.edges(data=True))) * u1[1][0]
+            ig1 = float(sum(y.igraph.es['weight'])) * u1[1][0] if y.igraph is not None and y.igraph.ecount() else gw1
+            # (the compiled cable length works in float32: 1e-6; the graphs carry float64 weights: 1e-9)
+            if abs(cab1_ - cab0_) > 1e-6 * max(1.0, abs(cab0_)) or max(abs(gw1 - gw0 * u0[1][0]), abs(ig1 - gw0 * u0[1][0])) > 1e-9 * max(1.0, abs(cab0_)):
+                ctx.violation('physical cable length (table / networkx graph / igraph, times units) is changed by scaling', desc,
+                              dict(before=cab0_, after_table=cab1_, after_graph=gw1, after_igraph=ig1))
     if exprs:
         out = coqio.eval_terms('C15', ['model.Dist', 'model.Units'], exprs, shard=100)
         for (desc, p1, u1, r1), r in zip(follow, out):
@@ -178,7 +188,14 @@ def run(ctx):
         # convert_units
         tgt = str(rng.choice(['nm', 'um', 'micron']))
         cab0 = float(navis.morpho.cable_length(x)) * NM[spell]
-        st, y = guarded(x.convert_units, tgt, inplace=False)
+        via_inplace = bool(rng.random() < 0.4)
+        if via_inplace:      # the in-place route (implemented with the augmented-assignment operators) on a copy of the neuron
+            y0 = x.copy()
+            st, y = guarded(y0.convert_units, tgt, inplace=True)
+            y = y0 if st == 'ok' else y
+        else:
+            st, y = guarded(x.convert_units, tgt, inplace=False)
+        desc = dict(desc, convert_inplace=via_inplace)
         if st != 'ok':
             ctx.violation('convert_units raised', dict(desc, to=tgt), y)
         else:
